@@ -92,7 +92,7 @@ def plan_c09(tier):
 
 def plan_c10(tier):
     if tier == "thorough":
-        ws = sharded("bufmc", "c10", "thorough", 16, ["rel", "dbg"], ["even", "odd"])
+        ws = sharded("bufmc", "c10", "deep", 32, ["rel", "dbg"], ["even", "odd"])
     else:
         ws = sharded("bufmc", "c10", "thorough", 16, ["rel", "dbg"], ["even"])
     return dict(
@@ -242,14 +242,16 @@ def plan_c18(tier):
         ws.append(R(["--set", st, "--k", "1", "--periodic", "2", "--rounds", "40", "--periodic-only"]))
         ws.append(R(["--set", st, "--k", "0", "--appends", "--splits", "--periodic", "2", "--rounds", "40", "--periodic-only"]))
     if tier == "thorough":
-        ws.append(R(["--set", "small", "--k", "2", "--max-states", "3000000", "--max-seconds", "3000"]))
-        ws.append(R(["--set", "small", "--k", "1", "--unsplit", "--max-states", "3000000", "--max-seconds", "3000"]))
-        ws.append(R(["--set", "t64k", "--k", "0", "--max-states", "400000", "--max-seconds", "3000"]))
-        ws.append(R(["--set", "t64k", "--k", "1", "--max-states", "600000", "--max-seconds", "3000"]))
-        ws.append(R(["--set", "t1k", "--k", "0", "--max-states", "2000000", "--max-seconds", "3000"]))
-        ws.append(R(["--set", "t2k", "--k", "0", "--max-states", "2000000", "--max-seconds", "3000"]))
-        ws.append(R(["--set", "small", "--k", "0", "--roundtrip", "--unsplit", "--periodic", "4"], prof="dbg"))
-        ws.append(R(["--set", "small", "--k", "1", "--periodic", "4", "--periodic-only"]))
+        for cap in ["0", "8", "16"]:
+            ws.append(R(["--set", "small", "--cap", cap, "--k", "2", "--max-states", "3000000", "--max-seconds", "1500"]))
+            ws.append(R(["--set", "small", "--cap", cap, "--k", "1", "--unsplit", "--max-states", "3000000", "--max-seconds", "1500"]))
+            ws.append(R(["--set", "small", "--cap", cap, "--k", "0", "--roundtrip", "--unsplit", "--periodic", "4"], prof="dbg"))
+            ws.append(R(["--set", "small", "--cap", cap, "--k", "1", "--periodic", "4", "--periodic-only"]))
+            ws.append(R(["--set", "small", "--cap", cap, "--k", "0", "--appends", "--splits", "--roundtrip", "--unsplit", "--periodic", "3", "--periodic-only"]))
+        ws.append(R(["--set", "t64k", "--k", "0", "--max-states", "400000", "--max-seconds", "1500"]))
+        ws.append(R(["--set", "t64k", "--k", "1", "--max-states", "600000", "--max-seconds", "1500"]))
+        ws.append(R(["--set", "t1k", "--k", "0", "--max-states", "2000000", "--max-seconds", "1500"]))
+        ws.append(R(["--set", "t2k", "--k", "0", "--max-states", "2000000", "--max-seconds", "1500"]))
     return dict(
         workers=ws, level="model_checking", distinct_is_max=False,
         rule="the recycle protocol as a nondeterministic transition system over the real crate (refill = reserve(n)+append, or append through Extend with exact / zero lower size hints, put_slice, put_bytes, the chunk_mut/advance_mut protocol or resize; consume by split/split_to/advance/truncate/clear with or without freeze, retention window of k parts, "
@@ -282,7 +284,7 @@ def plan_c17(tier):
         rule="fault enumeration: scripted misbehaving safe trait impls (Buf: remaining() +-1, +-7, 0, usize::MAX/2, usize::MAX or panicking; chunk() empty / shorter / longer-than-admitted / panicking; advance() ignored / partial / panicking; "
              "AsRef owner that panics or answers a different slice per call; iterators with size hints 0 / too small / too large / usize::MAX or panicking) passed to 24 entry points (BytesMut/Vec/slice/Limit/Chain put, default and overridden "
              "copy_to_bytes, copy_to_slice, getters on fast and slow paths and through Take/&mut/Box<dyn>/Chain, chunks_vectored, Reader, IntoIter, from_owner, Extend/FromIterator); ALL placements of <= 2 (first calls: <= 3) deviations among the first calls of each method "
-             "(quick: all single deviations among the first 6 calls, all pairs among the first 6 and all triples among the first 2 calls of each method in rel, a reduced set in dbg/odd; thorough: the full set in rel+dbg x even+odd); lies that lead to allocatable-but-huge requests run in forked children; oracle: allocator ledger, canaries, "
+             "(quick: all single deviations among the first 6 calls, all pairs among the first 6 and all triples among the first 2 calls of each method in rel, a reduced set in dbg/odd; thorough: all pairs among the first 8 calls and all triples among the first 3 calls of each method, in rel+dbg x even+odd); lies that lead to allocatable-but-huge requests run in forked children; oracle: allocator ledger, canaries, "
              "no guard/poison/uninitialised byte in any output (the liar's data sits flush against a canary zone), nothing leaked after unwinding. distinct_nontrivial = distinct deviation scripts",
         assumptions=["panics and wrong data are allowed outcomes", "a fuel counter bounds every scripted implementation so that lying cannot make an execution infinite"],
     )
